@@ -195,6 +195,11 @@ class ClassVal:
         return f"<class {self.ci.name}>"
 
 
+class Deque(list):
+    """collections.deque, modelled on a list (popleft/appendleft/extendleft added)."""
+    __slots__ = ()
+
+
 class TypeTok:
     def __init__(self, name):
         self.name = name
@@ -683,7 +688,7 @@ class Interp:
         if isinstance(x, str):
             return TypeTok("str")
         if isinstance(x, list):
-            return TypeTok("list")
+            return TypeTok("deque" if isinstance(x, Deque) else "list")
         if isinstance(x, NT):
             raise Unsupported("type() of a namedtuple")
         for py, nm in ((bool, "bool"), (int, "int"), (float, "float"), (bytes, "bytes"), (tuple, "tuple"),
@@ -726,6 +731,8 @@ class Interp:
             return {"str", "object"}
         if isinstance(x, bytes):
             return {"bytes", "object"}
+        if isinstance(x, Deque):
+            return {"deque", "object"}
         if isinstance(x, list):
             return {"list", "object"}
         if isinstance(x, NT):
@@ -1334,7 +1341,36 @@ class Interp:
             return o.with_(kind="zoned", zone=tz.key_, tag="converted")
         raise Unsupported("astimezone without a zone")
 
+    def _deque(self, i, a, k):
+        if k or len(a) > 1:
+            raise Unsupported("deque(...) with maxlen")
+        return Deque(self._as_list(a[0]) if a else [])
+
     def _list_method(self, o, name):
+        if isinstance(o, Deque):
+            if name == "popleft":
+                def popleft(i, a, k):
+                    if not o:
+                        raise AbsRaise("IndexError", "pop from an empty deque")
+                    return o.pop(0)
+                return Native("popleft", popleft)
+            if name == "appendleft":
+                return Native("appendleft", lambda i, a, k: o.insert(0, a[0]))
+            if name == "extendleft":
+                def extendleft(i, a, k):
+                    for y in self._as_list(a[0]):
+                        o.insert(0, y)
+                return Native("extendleft", extendleft)
+            if name == "pop":
+                def dpop(i, a, k):
+                    if a:
+                        raise AbsRaise("TypeError", "deque.pop() takes no arguments")
+                    if not o:
+                        raise AbsRaise("IndexError", "pop from an empty deque")
+                    return o.pop()
+                return Native("pop", dpop)
+            if name in ("sort", "copy", "insert", "index", "count", "remove", "rotate", "maxlen"):
+                raise Unsupported(f"deque.{name}")
         if name == "append":
             return Native("append", lambda i, a, k: o.append(a[0]))
         if name == "extend":
@@ -3140,6 +3176,8 @@ class Interp:
                         return v
                 if r[1] == "collections.Counter":
                     return Native("Counter", self._counter)
+                if r[1] == "collections.deque":
+                    return Native("deque", self._deque)
                 if r[1] in ("itertools", "functools", "operator", "collections"):
                     return NativeObj(r[1])
                 if r[1].startswith(("itertools.", "functools.", "operator.")):
